@@ -1325,7 +1325,9 @@ Lemma src_shape :
   src_async_spins_until_registered = true /\ src_async_releases_extent = true /\
   src_async_stores_at_extent_offset = true /\ src_async_done_when_no_extent_left = true /\
   src_async_eof_status_not_saved = true /\ src_start_prefetch_ignores_empty = true /\
-  src_start_prefetch_sets_flags = true /\ src_thread_registers_request_extent = true.
+  src_start_prefetch_sets_flags = true /\ src_thread_registers_request_extent = true /\
+  src_prefetch_flag_writers_pinned = true /\ src_thread_only_records_extents_under_lock = true /\
+  src_read_prefetch_none_when_unbuffered = true /\ src_prefetch_keeps_no_state = true.
 Proof. repeat split; reflexivity. Qed.
 
 Lemma src_maxreq_pos : 1 <= src_max_request_size.
